@@ -338,6 +338,17 @@ def inline_local_helpers(prog):
                 c += _rewrite_expr_helpers(prog, i['init'], 0)
         if c:
             done[f.sig] = c
+    # a helper all of whose calls were expanded is no longer part of the program the rules look at
+    remaining = {}
+    for f in prog.all_functions(include_patterns=True):
+        if f.body is None or f.d.get('helper'):
+            continue
+        for n in _nodes(f.body):
+            h = _local_callee(prog, n) if n.get('k') == 'Call' else None
+            if h is not None:
+                remaining[h.sig] = remaining.get(h.sig, 0) + 1
+    for h in helpers:
+        h.d['folded'] = remaining.get(h.sig, 0) == 0
     return done
 
 
@@ -347,7 +358,9 @@ def _range_for_as_for(s):
     Only for ranges that are plain lvalues of std::vector type; by-value loop variables must not be written in the body."""
     rng = ir.strip_casts(s.get('range') or {})
     var = s.get('var') or {}
-    if rng.get('k') not in ('Ref', 'Member') or not str(rng.get('ty', '')).startswith('std::vector<') or not var.get('id'):
+    if not _lvalue_path(rng) or rng.get('k') == 'This' or not str(rng.get('ty', '')).replace('const ', '').startswith('std::vector<') or not var.get('id'):
+        return None
+    if _path_ids(rng) & _written_ids(s['body']):
         return None
     if not var.get('byref') and var['id'] in _written_ids(s['body']):
         return None
@@ -505,3 +518,85 @@ def canonical_param_names(prog, table):
                 if x.get('id') in ren and 'name' in x:
                     x['name'] = ren[x['id']][1]
     return n
+
+
+# ----------------------------------------------------------------------------- canonical shape of returns
+def _terminates(s):
+    """Statement s never completes normally (ends in return / a noreturn call on every path)."""
+    if s is None:
+        return False
+    k = s.get('k')
+    if k == 'Return':
+        return True
+    if k == 'Expr':
+        e = ir.strip(s['e'])
+        return e.get('k') == 'Call' and bool((e.get('callee') or {}).get('noreturn'))
+    if k == 'Compound':
+        return bool(s['body']) and _terminates(s['body'][-1])
+    if k == 'If':
+        return s.get('else') is not None and _terminates(s['then']) and _terminates(s['else'])
+    return False
+
+
+def _as_compound(s):
+    if s is None:
+        return {'k': 'Compound', 'body': []}
+    if s.get('k') == 'Compound':
+        return s
+    return {'k': 'Compound', 'l': s.get('l'), 'body': [s]}
+
+
+def _canon_returns(c):
+    """c: Compound.  (1) the else of an `if` whose then-branch always returns/exits is spliced after it (guard-clause
+    form); (2) a trailing `return e;` after an if/else is copied into both branches; (3) `x = E; return x;` -> `return E;`."""
+    n = 0
+    body = c['body']
+    # (1) guard-clause form is canonical: `if(c){...return/exit} else {rest}` -> `if(c){...}` followed by rest
+    for i, s in enumerate(body):
+        if s.get('k') == 'If' and s.get('else') is not None and _terminates(s['then']):
+            rest = _as_compound(s['else'])['body']
+            s['else'] = None
+            body[i + 1:i + 1] = rest
+            n += 1
+            break
+    # (2)
+    if len(body) >= 2 and body[-1].get('k') == 'Return' and body[-2].get('k') == 'If' and body[-2].get('else') is not None \
+            and not _terminates(body[-2]) and not _terminates(body[-2]['then']):
+        ret = body[-1]
+        iff = body[-2]
+        for key in ('then', 'else'):
+            if not _terminates(iff[key]):
+                br = _as_compound(iff[key])
+                br['body'] = br['body'] + [copy.deepcopy(ret)]
+                iff[key] = br
+        del body[-1]
+        n += 1
+    # (3)
+    if len(body) >= 2 and body[-1].get('k') == 'Return' and body[-1].get('e') is not None and body[-2].get('k') == 'Expr':
+        r = ir.strip_casts(body[-1]['e'])
+        a = ir.strip(body[-2]['e'])
+        if r.get('k') == 'Ref' and r.get('rk') == 'local' and a.get('k') == 'Bin' and a.get('op') == '=' \
+                and ir.strip(a['lhs']).get('k') == 'Ref' and ir.strip(a['lhs']).get('id') == r.get('id') and not r.get('byref'):
+            body[-1] = dict(body[-1])
+            body[-1]['e'] = a['rhs']
+            del body[-2]
+            n += 1
+    return n
+
+
+def canonical_returns(prog):
+    total = 0
+    for f in prog.all_functions(include_patterns=True):
+        if f.body is None or f.body.get('k') != 'Compound':
+            continue
+        for _ in range(200):
+            changed = 0
+            for s in ir.walk_stmts(f.body):
+                if s.get('k') == 'Compound':
+                    changed = _canon_returns(s)
+                    if changed:
+                        break          # the tree changed: walk it afresh (never touch a detached sub-tree)
+            total += changed
+            if not changed:
+                break
+    return total
